@@ -291,6 +291,30 @@ func c12One(r *fw.Run, p *Pair, c *c12Case) {
 	}
 }
 
+// c12Hangup: a client (straight to the service, not through the proxy) sends a call and hangs up at once; the handler
+// pauses and then sends an error reply with a recognisable payload into the dead connection, so that reply's write fails.
+// Nothing of it may surface in what the next clients receive (seeded change C12-O: a pooled encode buffer that keeps the
+// unsent message when the write fails). The case that follows is judged as always.
+func c12Hangup(r *fw.Run, p *Pair, k int) {
+	cs := &CallScript{ID: fmt.Sprintf("hung%d", k), Steps: []Step{{Op: "sleep", N: 12},
+		{Op: "error", Name: "org.example.script.HungUp", Raw: json.RawMessage(fmt.Sprintf(`{"stale":"reply %d for a client that has gone"}`, k))}}}
+	data, _, _ := streamOf([]GenCall{{Method: "org.example.script.Fail", Script: cs}}, 0)
+	c, _, err := dialRaw(p.Rig.Net, p.Rig.Dial)
+	if err != nil {
+		return
+	}
+	c.SetWriteDeadline(time.Now().Add(5 * time.Second))
+	c.Write(data)
+	dl := time.Now().Add(5 * time.Second)
+	for !p.Rig.Log.hasStart(cs.ID) && time.Now().Before(dl) {
+		time.Sleep(200 * time.Microsecond)
+	}
+	c.Close()
+	time.Sleep(15 * time.Millisecond)
+	p.Rig.WaitIdle(10 * time.Second)
+	r.Count("replies_into_a_connection_the_client_had_closed", 1)
+}
+
 func runC12(r *fw.Run) {
 	rng := rand.New(rand.NewSource(r.Seed*23 + 12))
 	jg := &JGen{R: rng}
@@ -353,6 +377,9 @@ func runC12(r *fw.Run) {
 			c.Flags = "o"
 		case k%5 == 4:
 			c.Flags = "m"
+		}
+		if k%5 == 1 { // alternates between the transports
+			c12Hangup(r, p, k)
 		}
 		r.Journal(0, c)
 		c12One(r, p, c)
